@@ -202,7 +202,8 @@ impl Ctx {
         };
         let mut a = p.args(); a.insert(0, "v2dec".into());
         let mut rp = a.clone(); rp.push(hx(ct)); rp.push(nums(&src)); rp.push(consumer.to_string()); rp.push(nums(&reqs)); rp.push(hx(truth)); rp.push((tampered as u8).to_string());
-        let mut args = p.args(); args.push(hx(ct));
+        // the model runs the machine of C03_v2_stream_machine_is_spec under this consumer's request sizes, and the specification
+        let mut args = p.args(); args.push(hx(ct)); args.push(consumer.to_string()); args.push(nums(&reqs));
         self.out.case("v2dec", &args, &rp, &imp, Some(pred), cls);
     }
 
@@ -381,7 +382,7 @@ fn main() {
             let truth = unhx(&a[10]);
             let tampered = a[11] == "1";
             let pred = if !tampered { imp == format!("OK {}", hx(&truth)) } else if let Some(rel) = imp.strip_prefix("ERR ") { let rel = unhx(rel); rel.len() <= truth.len() && truth[..rel.len()] == rel[..] } else { false };
-            let mut args = p.args(); args.push(hx(&ct));
+            let mut args = p.args(); args.push(hx(&ct)); args.push(a[8].clone()); args.push(a[9].clone());
             cx.out.case("v2dec", &args, a, &imp, Some(pred), "replay");
         }
         if a[0] == "msgdec" && a.len() >= 9 {
